@@ -136,6 +136,12 @@ def verify_contract(c, src_index, unroll=0, timeout_ms=20000, registry=REGISTRY,
                 dflt = dict(zip(plist[len(plist) - len(f.defaults):], f.defaults)) if f.defaults else {}
                 dflt.update({k.arg: f.kwdefaults[k.arg] for k in a_.kwonlyargs if k.arg in f.kwdefaults})
                 supplied = set(pk) | set(plist[:len(pos)])
+                allnames = plist + [k.arg for k in a_.kwonlyargs]
+                missing = [nm for nm in allnames if nm not in supplied and nm not in dflt]
+                extra_ = [nm for nm in pk if nm not in allnames] if a_.kwarg is None else []
+                if missing or extra_:
+                    # not a TypeError of the program: the contract was written for another signature
+                    raise Unsupported(f'the signature of {q} no longer fits its contract (not supplied: {missing}, unknown: {extra_})')
                 for nm in plist + [k.arg for k in a_.kwonlyargs]:
                     if nm in supplied or nm not in dflt or nm in getattr(c, 'default_only', ()):
                         continue
